@@ -126,6 +126,11 @@ def corpus():
     c['A17_turn_fills_recv_buffer'] = dict(role='acceptor', max_pdu_length=len(b''.join(two)),
                                            steps=[('peer', [rq]), ('peer', two),
                                                   ('peer', [rel_rq]), ('fin',)])
+    # the peer pipelines many requests to a user that has stopped taking indications; then the
+    # user aborts (from another thread) while everything is still waiting
+    c['A18_flood_deaf_user_aborts'] = dict(role='acceptor', user={'deaf_after': 1}, sparse=True, steps=[
+        ('peer', [rq]), ('peer', [echo_rq(1 + j) for j in range(40)]), ('user', 'abort'),
+        ('fin',)])
     return c
 
 
@@ -144,6 +149,11 @@ class ReactiveUser(object):
         prov = self.rig.provider
         q = prov.to_service_user
         while True:
+            if self.policy.get('deaf_after') is not None and \
+                    len(self.seen) >= self.policy['deaf_after']:
+                # the application stops taking indications (busy elsewhere, or on its way out)
+                self.rig.sim.wait(lambda: False, 100000.0, 'user-deaf')
+                return
             item = q.get(True, None)
             self.seen.append(item)
             self.react(item)
